@@ -95,6 +95,7 @@ theorem isWindowsDriveAbsolutePath_agrees (a : Array Nat) (first last : Nat) (h 
     simp only [h3, if_true, rd_ok (Nat.le_refl first) (by omega : first < last) hl,
       rd_ok (by omega : first ≤ first + 1) (by omega : first + 1 < last) hl,
       rd_ok (by omega : first ≤ first + 2) (by omega : first + 2 < last) hl, R.ok_bind,
+      mkptr_ok (by omega : first ≤ first + 3) (by omega : first + 3 ≤ last),
       Impl.isWindowsDriveAbsolutePath]
     cases Impl.isWindowsDrive a[first]! a[first + 1]! <;> cases Impl.isWindowsSlash a[first + 2]! <;>
       simp [R.pure_eq]
@@ -145,6 +146,7 @@ theorem doubleDot_agrees (a : Array Nat) (first last : Nat) (h : first ≤ last)
       slice_nil a (first + 1 + 1 + 1 + 1) last (by omega)]
     simp only [h4, if_true, rd_ok (Nat.le_refl first) (by omega : first < last) hl,
       rd_ok (by omega : first ≤ first + 3) (by omega : first + 3 < last) hl, R.ok_bind, Impl.doubleDot,
+      mkptr_ok (by omega : first ≤ first + 1) (by omega : first + 1 ≤ last),
       escapedDot_agrees a first last first hl (Nat.le_refl _) (by omega),
       escapedDot_agrees a first last (first + 1) hl (by omega) (by omega)]
     by_cases c0 : a[first]! = 0x2E <;>
@@ -157,6 +159,7 @@ theorem doubleDot_agrees (a : Array Nat) (first last : Nat) (h : first ≤ last)
       slice_cons a (first + 1 + 1 + 1 + 1 + 1) last (by omega) hl,
       slice_nil a (first + 1 + 1 + 1 + 1 + 1 + 1) last (by omega)]
     simp only [h6, if_true, R.ok_bind, Impl.doubleDot,
+      mkptr_ok (by omega : first ≤ first + 3) (by omega : first + 3 ≤ last),
       escapedDot_agrees a first last first hl (Nat.le_refl _) (by omega),
       escapedDot_agrees a first last (first + 3) hl (by omega) (by omega)]
     cases Impl.escapedDot [a[first]!, a[first + 1]!, a[first + 2]!] <;> simp [R.pure_eq]
@@ -231,6 +234,7 @@ theorem hasXnLabel_agrees (a : Array Nat) (first last : Nat) (h : first ≤ last
   unfold hasXnLabel
   split
   · rename_i h4
+    psimp
     refine iter_sat _ (fun p => first ≤ p ∧ p ≤ last - 4 ∧
         (Impl.hasXnAt (slice a p last) || Impl.hasXnAfterDot (slice a p last)) = Impl.hasXnLabel (slice a first last))
       (fun p => last - p) _ ?_ _ _ ?_ ?_
@@ -264,6 +268,7 @@ theorem hasXnLabel_agrees (a : Array Nat) (first last : Nat) (h : first ≤ last
             simpa using hf
           | some q =>
             obtain ⟨q1, q2, q3, q4⟩ := hr
+            psimp
             refine R.sat_pure ?_
             simp only []
             refine ⟨⟨by omega, by omega, ?_⟩, by omega⟩
@@ -284,13 +289,15 @@ theorem hasXnLabel_agrees (a : Array Nat) (first last : Nat) (h : first ≤ last
 theorem readU32_agrees (a : Array Nat) (first last : Nat) (h : first < last) (hl : last ≤ a.size) :
     (readU32 a first last).sat (fun r => Impl.readU32 (slice a first last) = (r.1, r.2.1, slice a r.2.2 last)) := by
   rw [slice_cons a first last h hl]
-  simp only [readU32, rd_ok (Nat.le_refl _) h hl, R.ok_bind, Impl.readU32]
+  simp only [readU32, rd_ok (Nat.le_refl _) h hl, R.ok_bind, Impl.readU32,
+    mkptr_ok (by omega : first ≤ first + 1) (by omega : first + 1 ≤ last)]
   exact R.sat_pure rfl
 
 theorem readU16_agrees (a : Array Nat) (first last : Nat) (h : first < last) (hl : last ≤ a.size) :
     (readU16 a first last).sat (fun r => Impl.readU16 (slice a first last) = (r.1, r.2.1, slice a r.2.2 last)) := by
   rw [slice_cons a first last h hl]
-  simp only [readU16, rd_ok (Nat.le_refl _) h hl, R.ok_bind, Impl.readU16]
+  simp only [readU16, rd_ok (Nat.le_refl _) h hl, R.ok_bind, Impl.readU16,
+    mkptr_ok (by omega : first ≤ first + 1) (by omega : first + 1 ≤ last)]
   split
   · split
     · rename_i hc
@@ -298,7 +305,8 @@ theorem readU16_agrees (a : Array Nat) (first last : Nat) (h : first < last) (hl
       rw [slice_cons a (first + 1) last hp hl]
       simp only [rd_ok (by omega : first ≤ first + 1) hp hl, R.ok_bind, if_pos hc.1]
       split
-      · exact R.sat_pure rfl
+      · psimp
+        exact R.sat_pure rfl
       · exact R.sat_pure (by simp only []; rw [slice_cons a (first + 1) last hp hl])
     · rename_i hc
       by_cases hlead : a[first]! &&& 0x400 = 0
@@ -322,7 +330,7 @@ theorem u8LastTrail_eq (a : Array Nat) (first last p c : Nat) (hl : last ≤ a.s
       (true, (c <<< 6) ||| Impl.subByte80 a[p]!, p + 1) else (false, 0xFFFD, p)) := by
   simp only [u8LastTrail, rd_ok h1 h2 hl, R.ok_bind, Nat.mod_eq_of_lt hb, subByte80_def]
   by_cases hc : Impl.subByte80 a[p]! ≤ 0x3F
-  · rw [if_pos hc, if_pos hc]; rfl
+  · rw [if_pos hc, if_pos hc, mkptr_ok (by omega : first ≤ p + 1) (by omega : p + 1 ≤ last)]; rfl
   · rw [if_neg hc, if_neg hc]; rfl
 
 theorem readU8_agrees (a : Array Nat) (first last : Nat) (h : first < last) (hl : last ≤ a.size)
@@ -334,7 +342,8 @@ theorem readU8_agrees (a : Array Nat) (first last : Nat) (h : first < last) (hl 
     have : (0xF : Nat) = 2 ^ 4 - 1 := by decide
     rw [this, Nat.and_two_pow_sub_one_eq_mod]; omega
   rw [slice_cons a first last h hl]
-  simp only [readU8, rd_ok (Nat.le_refl _) h hl, R.ok_bind, m0, Impl.readU8]
+  simp only [readU8, rd_ok (Nat.le_refl _) h hl, R.ok_bind, m0, Impl.readU8,
+    mkptr_ok (by omega : first ≤ first + 1) (by omega : first + 1 ≤ last)]
   have hand := and80_iff _ (hb first (Nat.le_refl _) h)
   split
   · rename_i h80
@@ -355,6 +364,7 @@ theorem readU8_agrees (a : Array Nat) (first last : Nat) (h : first < last) (hl 
     · simp only [idx_ok (hF _), rd_ok (by omega : first ≤ first + 1) hp1 hl, R.ok_bind, m1]
       split
       · simp only [u8SecondToLast]
+        psimp
         split
         · rename_i hp2
           have hp2' : first + 1 + 1 < last := by omega
@@ -376,6 +386,7 @@ theorem readU8_agrees (a : Array Nat) (first last : Nat) (h : first < last) (hl 
         · rename_i ht
           have hct := And.intro hc4 ht
           simp only [if_pos hct]
+          psimp
           split
           · rename_i hp2
             have hp2' : first + 1 + 1 < last := by omega
@@ -384,6 +395,7 @@ theorem readU8_agrees (a : Array Nat) (first last : Nat) (h : first < last) (hl 
             simp only [rd_ok (by omega : first ≤ first + 1 + 1) hp2' hl, R.ok_bind, m2, subByte80_def]
             by_cases hc : Impl.subByte80 a[first + 1 + 1]! ≤ 0x3F
             · simp only [if_pos hc, u8SecondToLast]
+              psimp
               split
               · rename_i hp3
                 have hp3' : first + 1 + 1 + 1 < last := by omega
@@ -554,6 +566,7 @@ theorem hasDotDotSegment_agrees (isSl : Nat → Bool) (a : Array Nat) (first las
   unfold hasDotDotSegment
   split
   · rename_i h2
+    psimp
     refine iter_sat _ (fun p => first ≤ p ∧ p ≤ last - 1 ∧
         Impl.hasDotDotSegment isSl (prevOf a first p) (slice a p last) =
         Impl.hasDotDotSegment isSl (prevOf a first first) (slice a first last))
@@ -619,6 +632,7 @@ theorem hasDotDotSegment_agrees (isSl : Nat → Bool) (a : Array Nat) (first las
             simp only [Bool.false_eq_true, if_false] at hskip
             have hprev : prevOf a first (q + 2) = some a[q + 1]! := by
               simp only [prevOf, if_neg (by omega : ¬ q + 2 = first)]; rfl
+            psimp
             split
             · refine R.sat_pure ?_
               simp only []
@@ -724,6 +738,8 @@ theorem ipv4ParseNumber_agrees (a : Array Nat) (first last : Nat) (h : first ≤
         rw [← hrp1, ← hrp2] at hV
         have hr2 : first ≤ rp.2 ∧ rp.2 ≤ last := by rw [hrp2]; split <;> omega
         have hr1 : rp.1 = 8 ∨ rp.1 = 10 ∨ rp.1 = 16 := by rw [hrp1]; split <;> omega
+        rw [mkptr_ok hr2.1 hr2.2]
+        simp only [R.ok_bind]
         refine R.sat_bind (iter_sat _
           (fun p => first ≤ p ∧ p ≤ last ∧ Impl.skipZeros (slice a p last) = Impl.skipZeros (slice a rp.2 last))
           (fun p => last - p)
@@ -734,6 +750,7 @@ theorem ipv4ParseNumber_agrees (a : Array Nat) (first last : Nat) (h : first ≤
             simp only [rd_ok hp1 hpl hl, R.ok_bind]
             split
             · rename_i hz
+              psimp
               refine R.sat_pure ⟨⟨by omega, by omega, ?_⟩, by omega⟩
               rw [← hp3, slice_cons a p last hpl hl, hz, skipZeros_cons_eq]
             · rename_i hz
@@ -806,6 +823,7 @@ theorem ipv4ParseNumber_agrees (a : Array Nat) (first last : Nat) (h : first ≤
             exact R.sat_pure hi3
           · rename_i hbad
             rw [if_neg hbad] at hi3
+            psimp
             exact R.sat_pure ⟨⟨by simp only []; omega, by simp only []; omega, hi3⟩, by simp only []; omega⟩
         · rename_i hr10
           rw [if_neg hr10] at hi3
@@ -817,6 +835,7 @@ theorem ipv4ParseNumber_agrees (a : Array Nat) (first last : Nat) (h : first ≤
           · rename_i hbad
             rw [if_neg hbad] at hi3
             simp only [idx_ok (by omega : a[it]! / 0x20 < 8), R.ok_bind]
+            psimp
             exact R.sat_pure ⟨⟨by simp only []; omega, by simp only []; omega, hi3⟩, by simp only []; omega⟩
       · exact ⟨Nat.le_refl _, hp2, rfl⟩
       · rarith
